@@ -4,6 +4,7 @@ package main
 
 import (
 	"fmt"
+	"go/ast"
 	"go/constant"
 	"go/token"
 	"go/types"
@@ -332,9 +333,57 @@ func (e *Engine) execBlock(fr *Frame, b *ssa.BasicBlock, st *State, in map[*ssa.
 			}
 			return
 		default:
-			e.execInstr(fr, st, instr)
+			if c := e.curContract; c != nil && c.Partial && fr.top {
+				if msg, failed := e.tryExec(fr, st, instr); failed {
+					e.abandonPath(fr, st, instr, msg)
+					return
+				}
+			} else {
+				e.execInstr(fr, st, instr)
+			}
 		}
 	}
+}
+
+func (e *Engine) tryExec(fr *Frame, st *State, instr ssa.Instruction) (msg string, failed bool) {
+	defer func() {
+		if r := recover(); r != nil {
+			switch v := r.(type) {
+			case engErr:
+				msg, failed = string(v), true
+			case specErr:
+				msg, failed = string(v), true
+			default:
+				panic(r)
+			}
+		}
+	}()
+	e.execInstr(fr, st, instr)
+	return "", false
+}
+
+// abandonPath: the path reached a construct outside the subset. Nothing is claimed
+// beyond this point; to keep the postconditions sound, each clause `A ==> B` must
+// have A false here (A may only mention inputs and the entry state).
+func (e *Engine) abandonPath(fr *Frame, st *State, instr ssa.Instruction, msg string) {
+	c := e.curContract
+	e.vc.note("path abandoned at " + e.posStr(instr.Pos()) + ": " + msg)
+	e.abandoned++
+	env := e.contractEnv(c, fr.fn, fr.params, fr.entry)
+	env.old = fr.entry
+	for i, q := range c.Ensures {
+		goal := "false"
+		if ce, ok := q.Expr.(*ast.CallExpr); ok {
+			if id, ok := ce.Fun.(*ast.Ident); ok && id.Name == "implies" && len(ce.Args) == 2 {
+				if t, err := e.tryEvalBool(env, ce.Args[0]); err == nil {
+					goal = not(t)
+				}
+			}
+		}
+		ob := e.vc.oblige(fmt.Sprintf("post:%d/a%d", i+1, e.abandoned), st.pc, goal, "postcondition must be vacuous on the abandoned path ("+e.posStr(instr.Pos())+"): "+q.Text)
+		ob.Props = q.Props
+	}
+	st.pc = "false"
 }
 
 func (e *Engine) panicSite(fr *Frame, st *State, v *ssa.Panic) {
